@@ -445,6 +445,32 @@ def adaptive_in_condition(item, res, on_v):
     res["outcomes"].append("cond|%s|kept=%d" % (name, kept))
 
 
+def static_sum(item, res, on_v):
+    """the sum of two static samplers: each part keeps its own schedule (a set is used r_a resp. r_b times)"""
+    for ra, rb in itertools.product((1, 2, 3, math.inf), repeat=2):
+        class TA(Ticket):
+            pass
+        a_, b_ = TA(), TA()
+        smp = a_.make_static(resample_interval=ra) + b_.make_static(resample_interval=rb)
+        got = []
+        try:
+            for _ in range(8):
+                p = smp.sample_points()
+                t = p.as_tensor.reshape(-1).tolist()
+                got.append((int(round(t[0])), int(round(t[1]))))
+                res["transitions"] += 1
+        except Exception as e:
+            on_v("C15|static-sum|error|%s" % type(e).__name__, "intervals (%s, %s): raised %s: %s" % (ra, rb, type(e).__name__, str(e)[:100]))
+            continue
+        want = [(1 + (i // ra if ra != math.inf else 0), 1 + (i // rb if rb != math.inf else 0)) for i in range(8)]
+        res["evals"] += 1
+        res["states"].append("static-sum|%s|%s" % (ra, rb))
+        if got != want:
+            on_v("C15|static-sum|protocol", "a.make_static(%s) + b.make_static(%s): successive calls use the point sets %s, each part's own schedule gives %s" % (ra, rb, got, want))
+        else:
+            res["outcomes"].append("static-sum|%s|%s" % (ra, rb))
+
+
 def static_in_functionset(item, res, on_v):
     """a function set draws its parameters through its parameter sampler once per sample_params() call: with a STATIC
     parameter sampler of interval r the same parameter set is used r times, then a fresh one (the ticket sampler makes
@@ -483,6 +509,7 @@ def items(tier):
     out.append({"name": "tlc-conformance", "kind": "tlc", "tier": tier, "cost": 9})
     out.append({"name": "nonstatic-fresh", "kind": "nonstatic", "tier": tier})
     out.append({"name": "static-in-functionset", "kind": "fset_static", "tier": tier})
+    out.append({"name": "static-sum", "kind": "static_sum", "tier": tier})
     for n in BOUNDS[tier]["n"]:
         for dom in ("I01", "SQ", "C_t"):
             for variant in ("threshold", "random"):
@@ -536,6 +563,8 @@ def run_item(item):
         res["traces"] = res["evals"] = n
         res["outcomes"] = ["tlc-edge|%d" % i for i in range(n)]
         res["samples"] = [{"engine": "B", "tlc_distinct_states": g["distinct"], "edges_replayed": n}]
+    elif item["kind"] == "static_sum":
+        static_sum(item, res, on_v)
     elif item["kind"] == "fset_static":
         static_in_functionset(item, res, on_v)
     elif item["kind"] == "adaptive_cond":
